@@ -726,6 +726,71 @@ struct Mon {
       if (it != fw.end() && (i128)it->T - q <= 1) ++nontrivial;
       else if (jt != fw.begin() && (i128)q - (jt - 1)->T <= 1) ++nontrivial;
     }
+    // the same queries through the templated overloads, with time points finer and coarser than a second: "strictly
+    // after t" is T > floor(t) for whole-second T, "strictly before t" is T < ceil(t)
+    if (complete) {
+      size_t nq = 0;
+      for (int64_t q : qs) {
+        auto it0 = std::lower_bound(fw.begin(), fw.end(), q, [](const Step& s, int64_t v) { return s.T < v; });
+        bool near = (it0 != fw.end() && (i128)it0->T - q <= 1) || (it0 != fw.begin() && (i128)q - (it0 - 1)->T <= 1);
+        if (!near && (nq++ % 8) != 0) continue;
+        auto expect = [&](i128 num, i128 den, const char* what, bool g, bool gp, const cctz::time_zone::civil_transition& tn,
+                          const cctz::time_zone::civil_transition& tpv) {
+          // t = num/den seconds
+          i128 fl = orc::fdiv(num, den);
+          i128 ce = (fl * den == num) ? fl : fl + 1;
+          auto itn = std::upper_bound(fw.begin(), fw.end(), fl, [](i128 v, const Step& s) { return v < (i128)s.T; });
+          auto itp = std::lower_bound(fw.begin(), fw.end(), ce, [](const Step& s, i128 v) { return (i128)s.T < v; });
+          ctx.stat("C11.evaluations", 2);
+          ctx.stat("C11.subsecond_queries", 2);
+          if (fl * den != num) ctx.stat("C11.subsecond_queries_with_fraction", 2);
+          bool en = itn != fw.end(), ep = itp != fw.begin();
+          if (g != en || (g && !same_tr(tn, *itn))) {
+            std::ostringstream d;
+            d << "zone=" << zid() << " next_transition(" << S(num) << "/" << S(den) << " s as " << what << ") expected "
+              << (en ? "T=" + std::to_string(itn->T) : std::string("false")) << " got " << (g ? "to=" + orc::str(from_cs(tn.to)) : std::string("false"));
+            ctx.viol("C11", std::string("next-point-query:") + what + ":" + ze.cls, d.str());
+          }
+          if (gp != ep || (gp && !same_tr(tpv, *(itp - 1)))) {
+            std::ostringstream d;
+            d << "zone=" << zid() << " prev_transition(" << S(num) << "/" << S(den) << " s as " << what << ") expected "
+              << (ep ? "T=" + std::to_string((itp - 1)->T) : std::string("false")) << " got "
+              << (gp ? "to=" + orc::str(from_cs(tpv.to)) : std::string("false"));
+            ctx.viol("C11", std::string("prev-point-query:") + what + ((fl * den != num) ? "-with-fraction:" : ":") + ze.cls, d.str());
+          }
+        };
+        cctz::time_zone::civil_transition tn, tpv;
+        if (q > -9000000000000000LL && q < 9000000000000000LL) {
+          for (int f : {-999, -500, -1, 0, 1, 500, 999}) {
+            int64_t c = q * 1000 + f;
+            cctz::time_point<std::chrono::milliseconds> t{std::chrono::milliseconds(c)};
+            ctx.set_case("zone=%s path=%s op=next/prev_transition<ms> count=%" PRId64, zid().c_str(), ze.path.c_str(), c);
+            bool g = tz.next_transition(t, &tn), gp = tz.prev_transition(t, &tpv);
+            expect(c, 1000, "milliseconds", g, gp, tn, tpv);
+          }
+        }
+        if (q > -9000000000LL && q < 9000000000LL) {
+          for (int f : {-1, 0, 1, 999999999}) {
+            int64_t c = q * 1000000000 + f;
+            std::chrono::time_point<std::chrono::system_clock, std::chrono::nanoseconds> t{std::chrono::nanoseconds(c)};
+            ctx.set_case("zone=%s path=%s op=next/prev_transition<ns> count=%" PRId64, zid().c_str(), ze.path.c_str(), c);
+            bool g = tz.next_transition(t, &tn), gp = tz.prev_transition(t, &tpv);
+            expect(c, 1000000000, "nanoseconds", g, gp, tn, tpv);
+          }
+        }
+        {
+          int64_t m = (int64_t)orc::fdiv(q, 60);
+          for (int d : {0, 1}) {
+            if (q % 60 == 0 && d == 1) continue;
+            if (!orc::fits64((i128)(m + d) * 60)) continue;  // outside the documented range of the overload
+            cctz::time_point<std::chrono::duration<int64_t, std::ratio<60>>> t{std::chrono::duration<int64_t, std::ratio<60>>(m + d)};
+            ctx.set_case("zone=%s path=%s op=next/prev_transition<min> count=%" PRId64, zid().c_str(), ze.path.c_str(), m + d);
+            bool g = tz.next_transition(t, &tn), gp = tz.prev_transition(t, &tpv);
+            expect(-((i128)(m + d) * -60), 1, "minutes", g, gp, tn, tpv);
+          }
+        }
+      }
+    }
     if (tz.next_transition(tp_t::max(), &tr))
       ctx.viol("C11", "next-at-max-true:" + ze.cls, "zone=" + zid());
     if (tz.prev_transition(tp_t::min(), &tr))
